@@ -236,6 +236,10 @@ type Chain struct {
 	// Script[i] answers the i-th GetSeqno call; calls beyond the script repeat Tail.
 	Script []Poll
 	Tail   Poll
+	// AdvanceAfter > 0: from that long after the first SendMessage on, every GetSeqno answers AdvanceTo (the
+	// message was executed on chain at that moment), whatever the script says.
+	AdvanceAfter time.Duration
+	AdvanceTo    uint32
 
 	Sent       [][]byte
 	SentAt     []time.Time
@@ -250,6 +254,9 @@ func (c *Chain) GetSeqno(ctx context.Context, account ton.AccountID) (uint32, er
 	p := c.Tail
 	if len(c.Polls) < len(c.Script) {
 		p = c.Script[len(c.Polls)]
+	}
+	if c.AdvanceAfter > 0 && len(c.SentAt) > 0 && time.Since(c.SentAt[0]) >= c.AdvanceAfter {
+		p = Poll{Seqno: c.AdvanceTo}
 	}
 	c.Polls = append(c.Polls, PollRecord{At: time.Now(), Reply: p})
 	c.SeqnoAddrs = append(c.SeqnoAddrs, account)
